@@ -257,8 +257,28 @@ fn na() -> OpenOut {
     OpenOut { v: Verdict::NA, before: vec![], after: vec![] }
 }
 
+thread_local! {
+    /// when set, the classic copying forms (and the classic stream pull) are handed a message
+    /// buffer of exactly this length instead of one sized from the submitted ciphertext — a
+    /// receiver that knows the expected message length, or one that reuses a larger frame buffer
+    pub static OUT_LEN: std::cell::Cell<Option<usize>> = const { std::cell::Cell::new(None) };
+}
+
+pub fn with_out_len<R>(n: Option<usize>, f: impl FnOnce() -> R) -> R {
+    let old = OUT_LEN.with(|c| c.replace(n));
+    let r = f();
+    OUT_LEN.with(|c| c.set(old));
+    r
+}
+
+/// is this a classic form that writes the message into a separate caller-sized buffer?
+pub fn is_copying(name: &str) -> bool {
+    !name.starts_with("Dryoc") && !name.contains("inplace")
+}
+
 /// classic copying form: message buffer prefilled with the sentinel
 fn copying(mlen: usize, s: u8, f: impl FnOnce(&mut [u8]) -> Result<(), dryoc::Error>) -> OpenOut {
+    let mlen = OUT_LEN.with(|c| c.get()).unwrap_or(mlen);
     let before = vec![s; mlen];
     let mut m = before.clone();
     let r = guarded(AssertUnwindSafe(|| f(&mut m)));
